@@ -914,6 +914,34 @@ func checkBPFBuilders(p *Prog, r *Report) {
 			}
 		}
 		r.Check(okD, "C03.R8", name+"/subnet-guard", pos, "the target subnet is used only under DstSubnet != nil", whyD)
+		// capture length covers Ethernet + maximal IPv4 header + the transport header the processor reads
+		need := map[string]int64{"tcp": 14 + 60 + 60, "icmp": 14 + 60 + 8, "arp": 14 + 28}[lastElem(fn.Pkg.Pkg.Path())]
+		okS, whyS := need > 0, "no oracle for this protocol"
+		nRet := 0
+		for _, s := range fp.Segs {
+			if !s.Returns() {
+				continue
+			}
+			nRet++
+			v := s.Resolve(s.Exit.(*ssa.Return).Results[1])
+			k, isC := constInt(v)
+			if !isC {
+				// delegated to another builder of the same package
+				if ex, isEx := v.(*ssa.Extract); isEx && ex.Index == 1 {
+					if c, isCall := ex.Tuple.(*ssa.Call); isCall {
+						if g := StaticCallee(&c.Call); g != nil && g.Pkg == fn.Pkg {
+							continue
+						}
+					}
+				}
+				okS, whyS = false, "capture length is not a constant"
+				continue
+			}
+			if k < need {
+				okS, whyS = false, fmt.Sprintf("capture length %d is shorter than a reply with a maximal IPv4 header needs (%d): replies carrying IP options are cut before the transport header and dropped", k, need)
+			}
+		}
+		r.Check(okS && nRet > 0, "C03.R8", name+"/snaplen", pos, fmt.Sprintf("the capture length covers link header, a 60-byte IPv4 header and the transport header read by the processor (>= %d)", need), whyS)
 		// port clauses
 		for _, b := range fn.Blocks {
 			for _, in := range b.Instrs {
